@@ -568,12 +568,15 @@ class ForestRuleExtractor:
             self._rules_for_class(c) for c in all_classes
         )
         for normal_rule in all_normal_rules:
+            try:
+                children = normal_rule.children
+            except StrategyDoesNotApply:
+                continue
             potential_rules = [normal_rule]
             if normal_rule.is_reversible():
                 assert isinstance(normal_rule, Rule)
                 potential_rules.extend(
-                    normal_rule.to_reverse_rule(i)
-                    for i in range(len(normal_rule.children))
+                    normal_rule.to_reverse_rule(i) for i in range(len(children))
                 )
             for rule in potential_rules:
                 if (
